@@ -11,6 +11,7 @@ package props
 
 import (
 	"encoding/json"
+	"reflect"
 	"testing"
 
 	"github.com/google/jsonschema-go/jsonschema"
@@ -19,13 +20,44 @@ import (
 	"verif/ev"
 	"verif/jv"
 	"verif/refmodel"
+	"verif/repr"
 )
 
 type c15Case struct {
 	Schema    *jv.V   `json:"schema"`
 	Instances []*jv.V `json:"instances"`
 	Typed     bool    `json:"typed"` // also apply to a map[string]map[string]any copy where it fits
+	// Pad: every Default of the Schema gets leading and trailing JSON whitespace after Unmarshal,
+	// as a schema built in Go may have it (the decoder strips it from documents).
+	Pad bool `json:"pad,omitempty"`
+	// Reprs: a typed Go representation of each instance to which ApplyDefaults is applied as well.
+	Reprs []c15Repr `json:"reprs,omitempty"`
 }
+
+type c15Repr struct {
+	Fixed   int   `json:"fixed,omitempty"` // 1-based index into c15FixedTypes, 0 = free choice
+	Choices []int `json:"choices,omitempty"`
+}
+
+type c15NK string
+
+// c15FixedTypes: typed containers whose element types cannot hold every container ApplyDefaults
+// might want to create (a map of ints has no room for a nested object).
+var c15FixedTypes = []reflect.Type{
+	reflect.TypeFor[map[string]map[string]int](),
+	reflect.TypeFor[map[string]map[string]any](),
+	reflect.TypeFor[map[string]map[string]string](),
+	reflect.TypeFor[map[c15NK]map[string]*int](),
+	reflect.TypeFor[map[string]map[string]map[string]int](),
+	reflect.TypeFor[map[string]map[c15NK]map[string]any](),
+	reflect.TypeFor[map[string]map[string]float64](),
+	reflect.TypeFor[map[string]int](),
+	reflect.TypeFor[map[string]*map[string]any](),
+}
+
+// c15Loose: the typed pass checks every law except "the inserted value equals the default",
+// since a typed container holds the default as decoded into its element type.
+var c15Loose bool
 
 var c15Names = []string{"a", "b", "c"}
 
@@ -56,7 +88,9 @@ func genC15Schema(t *rapid.T, depth int) *jv.V {
 		if n(3, "objdefault") == 0 {
 			// a default for an object-typed subschema: an object over the same names (possibly
 			// incomplete, so that it gets completed), or something else entirely
-			if n(4, "nonobjdefault") == 0 {
+			if k := n(6, "nonobjdefault"); k == 0 {
+				s.Set("default", jv.NullV())
+			} else if k == 1 {
 				s.Set("default", val())
 			} else {
 				d := jv.ObjV()
@@ -204,6 +238,9 @@ func justified(v, ps *jv.V, path string) *failure {
 		return failf("%s: inserted value %s has no declaring subschema", path, v.JSON())
 	}
 	if d := ps.Get("default"); d != nil {
+		if c15Loose {
+			return nil
+		}
 		// v must extend the default, with every extra key justified
 		return extends(d, v, ps, path)
 	}
@@ -253,6 +290,13 @@ func checkC15(c *c15Case, rec *ev.Recorder) *failure {
 		if err := json.Unmarshal([]byte(doc), &s); err != nil {
 			return failf("Unmarshal rejects a well-formed schema: %v\n%s", err, doc)
 		}
+		if c.Pad {
+			for _, x := range schemaList(&s) {
+				if x.Default != nil {
+					x.Default = json.RawMessage(" \n\t" + string(x.Default) + " \n")
+				}
+			}
+		}
 		rs, err := s.Resolve(nil)
 		if err != nil {
 			return failf("Resolve rejects a well-formed schema: %v\n%s", err, doc)
@@ -284,7 +328,7 @@ func checkC15(c *c15Case, rec *ev.Recorder) *failure {
 		if (verr != nil) != anyBad {
 			return failf("Resolve(ValidateDefaults) error=%v, but the reference evaluator finds an invalid default=%v (first at %q)\n schema: %s", verr, anyBad, bad, doc)
 		}
-		for _, inst := range c.Instances {
+		for i, inst := range c.Instances {
 			var x any = inst.ToAny()
 			if err := rs.ApplyDefaults(&x); err != nil {
 				// an error is allowed (e.g. a default that cannot be assigned); nothing may have been corrupted silently,
@@ -338,6 +382,11 @@ func checkC15(c *c15Case, rec *ev.Recorder) *failure {
 			if !jv.Equal(jv.FromAny(y), after) {
 				return failf("ApplyDefaults is not idempotent\n schema: %s\n once:  %s\n twice: %s", doc, after.JSON(), jv.FromAny(y).JSON())
 			}
+			if i < len(c.Reprs) {
+				if fl := c15TypedPass(rs, c, i, rec); fl != nil {
+					return fl
+				}
+			}
 			if c.Typed {
 				// the same through a map with a named string key type
 				if mm, ok := inst.ToAny().(map[string]any); ok {
@@ -360,6 +409,76 @@ func checkC15(c *c15Case, rec *ev.Recorder) *failure {
 		}
 		return nil
 	})
+}
+
+// c15TypedPass applies the defaults to a typed Go representation of instance i and checks the
+// representation-independent laws on the result as encoding/json writes it.
+func c15TypedPass(rs *jsonschema.Resolved, c *c15Case, i int, rec *ev.Recorder) *failure {
+	inst, r := c.Instances[i], c.Reprs[i]
+	b := &repr.Builder{C: &repr.Script{Seq: r.Choices}, O: repr.Options{NoArrays: true}}
+	var x any
+	fixed := false
+	if r.Fixed > 0 && r.Fixed <= len(c15FixedTypes) {
+		x, fixed = b.BuildAs(inst, c15FixedTypes[r.Fixed-1])
+	}
+	if !fixed {
+		x = b.Build(inst)
+	}
+	desc := repr.Describe(x)
+	doc := c.Schema.JSON()
+	var err error
+	if f := guard(func() *failure { err = rs.ApplyDefaults(&x); return nil }); f != nil {
+		return failf("ApplyDefaults panics on the representation %s of %s\n schema: %s\n%s", desc, inst.JSON(), doc, f.Msg)
+	}
+	if err != nil {
+		// e.g. a default that does not fit the element type
+		if rec != nil {
+			rec.Class("typed:error")
+		}
+		return nil
+	}
+	enc := func() (*jv.V, *failure) {
+		bs, err := json.Marshal(x)
+		if err != nil {
+			return nil, failf("HARNESS: cannot encode the typed result: %v", err)
+		}
+		v, err := jv.Parse(string(bs))
+		if err != nil {
+			return nil, failf("HARNESS: cannot parse the typed result: %v", err)
+		}
+		// through float64: encoding/json spells a float64 in its shortest round-tripping form
+		// (-2^63 as -9223372036854776000)
+		return jv.FromAny(v.ToAny()), nil
+	}
+	after, fl := enc()
+	if fl != nil {
+		return fl
+	}
+	if rec != nil {
+		rec.ClassIf(fixed, "typed:fixed-container-type")
+		rec.ClassIf(!fixed, "typed:free-representation")
+		rec.ClassIf(after.Size() > inst.Size(), "typed:something-added")
+		rec.Eval(after.Size() > inst.Size(), []byte(doc+"\x00"+inst.Canon()+"\x00"+desc), func() any {
+			return map[string]any{"schema": c.Schema, "before": inst, "representation": desc, "after": after}
+		})
+	}
+	c15Loose = true
+	fl = extends(jv.FromAny(inst.ToAny()), after, c.Schema, "")
+	c15Loose = false
+	if fl != nil {
+		return failf("on the representation %s: %s\n schema: %s\n before: %s\n after:  %s", desc, fl.Msg, doc, inst.JSON(), after.JSON())
+	}
+	if err := rs.ApplyDefaults(&x); err != nil {
+		return failf("second ApplyDefaults fails on the representation %s: %v\n schema: %s\n instance: %s", desc, err, doc, after.JSON())
+	}
+	twice, fl := enc()
+	if fl != nil {
+		return fl
+	}
+	if !jv.Equal(twice, after) {
+		return failf("ApplyDefaults is not idempotent on the representation %s\n schema: %s\n once:  %s\n twice: %s", desc, doc, after.JSON(), twice.JSON())
+	}
+	return nil
 }
 
 // poison writes a marker key into every map reachable from x (the harness acting as the owner
@@ -391,8 +510,19 @@ func TestC15(t *testing.T) {
 	rapid.Check(t, func(t *rapid.T) {
 		c := &c15Case{Typed: rapid.Bool().Draw(t, "typed")}
 		c.Schema = genC15Schema(t, rapid.IntRange(1, 3).Draw(t, "depth"))
+		c.Pad = rapid.IntRange(0, 3).Draw(t, "pad") == 0
 		for i := 0; i < 4; i++ {
 			c.Instances = append(c.Instances, genC15Instance(t, c.Schema, 3))
+		}
+		for _, inst := range c.Instances {
+			r := c15Repr{}
+			if rapid.IntRange(0, 2).Draw(t, "fixedtype") == 0 {
+				r.Fixed = 1 + rapid.IntRange(0, len(c15FixedTypes)-1).Draw(t, "fixedtypeidx")
+			}
+			l := &repr.Logger{In: repr.RapidChooser{T: t}}
+			(&repr.Builder{C: l, O: repr.Options{NoArrays: true}}).Build(inst)
+			r.Choices = l.Log
+			c.Reprs = append(c.Reprs, r)
 		}
 		fl := checkC15(c, rec)
 		if isHarnessFailure(fl) {
